@@ -1,10 +1,81 @@
 import CoxeterVerif.Driver.Proto
+import CoxeterVerif.Model.MeshIO
+import CoxeterVerif.Spec.MeshIO
 
 namespace OpsC20
+open MeshIO
+
+/-! Strings travel as length-prefixed lists of code points (`i<n> i<c₁> … i<c_n>`); the reply of a
+    writer is the file text as code points (`i<c>` each). The scalar mode (F/Q) is irrelevant. -/
+
+def rdStr (c : Ctx) : Rd Str := do
+  let l ← Rd.list c (Rd.nat c)
+  pure (l.map Char.ofNat)
+
+def rdV3T (c : Ctx) : Rd V3T := do
+  let x ← rdStr c; let y ← rdStr c; let z ← rdStr c
+  pure (x, y, z)
+
+def rdMesh (c : Ctx) : Rd Mesh := do
+  let vs ← Rd.list c (rdV3T c)
+  let fs ← Rd.list c (Rd.list c (Rd.nat c))
+  pure ⟨vs, fs⟩
+
+def outText (s : Str) : String := " ".intercalate (s.map fun ch => s!"i{ch.toNat}")
+def outStr (s : Str) : String := if s.isEmpty then "i0" else s!"i{s.length} {outText s}"
+def outV3T (v : V3T) : String := s!"{outStr v.1} {outStr v.2.1} {outStr v.2.2}"
+def outList {β} (f : β → String) (l : List β) : String :=
+  if l.isEmpty then "i0" else s!"i{l.length} " ++ " ".intercalate (l.map f)
+def outMesh (m : Option Mesh) : String :=
+  match m with
+  | none => "i0"
+  | some m => s!"i1 {outList outV3T m.verts} {outList (outList fun (i : Nat) => s!"i{i}") m.faces}"
+def outFacets (r : Option (List Facet)) : String :=
+  match r with
+  | none => "i0"
+  | some fs => s!"i1 " ++ outList (fun (f : Facet) => s!"{outV3T f.1} {outV3T f.2.1} {outV3T f.2.2.1} {outV3T f.2.2.2}") fs
+
+/-- the `nrm` parameter of `toStl` from the list of printed normals in fan order -/
+def nrmTable (m : Mesh) (ns : List V3T) : V3T → V3T → V3T → V3T :=
+  let tris := m.faces.flatMap fun f => (fan f).map fun t => (vat m t.1, vat m t.2.1, vat m t.2.2)
+  let table := tris.zip ns
+  fun a b c => match table.find? (fun e => e.1 == (a, b, c)) with
+    | some e => e.2
+    | none => ([], [], [])
 
 /-- driver ops of C20. `none` = unknown op. -/
 def run (α : Type) [Scalar α] [Codec α] (op : String) (c : Ctx) : Option (Rd String) :=
   match op with
+  | "io.save" => some do
+      -- in: filetype ver cls mesh normals ; out: file text | E:ValueError
+      let ft ← rdStr c; let ver ← rdStr c; let cls ← rdStr c
+      let m ← rdMesh c
+      let ns ← Rd.list c (rdV3T c)
+      match save ft ver cls (nrmTable m ns) m with
+      | .ok s => pure (outText s)
+      | .error k => pure s!"E:{k}"
+  | "io.write" => some do
+      -- in: format (0 obj,1 off,2 stl,3 ply,4 vtk,5 x3d,6 html) ver cls mesh normals ; out: file text
+      let k ← Rd.nat c; let ver ← rdStr c; let cls ← rdStr c
+      let m ← rdMesh c
+      let ns ← Rd.list c (rdV3T c)
+      let s := match k with
+        | 0 => toObj ver cls m | 1 => toOff ver cls m | 2 => toStl cls (nrmTable m ns) m
+        | 3 => toPly ver cls m | 4 => toVtk ver cls m | 5 => toX3d cls m | _ => toHtml cls m
+      pure (outText s)
+  | "io.read" => some do
+      -- in: reader (0 obj,1 off strict,2 off lenient,3 ply,4 vtk) text ; out: 0 | 1 mesh
+      let k ← Rd.nat c; let text ← rdStr c
+      let r := match k with
+        | 0 => readObj text | 1 => readOff text | 2 => readOffLenient text | 3 => readPly text | _ => readVtk text
+      pure (outMesh r)
+  | "io.read_stl" => some do
+      let text ← rdStr c
+      pure (outFacets (readStl text))
+  | "io.edges" => some do
+      -- in: faces ; out: len(Polyhedron.edges)
+      let fs ← Rd.list c (Rd.list c (Rd.nat c))
+      pure s!"i{(edgePairs fs).length}"
   | _ => none
 
 end OpsC20
